@@ -742,6 +742,13 @@ def programs():
         ("select_compare_chain", lambda p_, q: lax.select(lax.lt(p_, q), lax.max(p_, q), lax.min(p_, q)) - lax.neg(p_), [a, b]),
         ("round_half_cases", lambda v: (lax.round(v), jnp.round(v), lax.floor(v), lax.ceil(v)),
          [np.array([0.5, 1.5, 2.5, -0.5, -1.5, -2.5, 0.49999997, -0.49999997], f)]),
+        # vmapped while_loop, per-example trip counts, predicate not monotone along the trajectory
+        ("vmap_while_nonmonotone_pred",
+         lambda s0: jax.vmap(lambda s: lax.while_loop(lambda t: (t != 3) & (t < 8), lambda t: t + 1, s))(s0),
+         [np.array([2, 1, 0, 5, 3, 9], I)]),
+        ("vmap_while_monotone_pred",
+         lambda s0: jax.vmap(lambda s: lax.while_loop(lambda t: t < 3.0, lambda t: t * 1.5 + 0.25, s))(s0),
+         [np.array([0.0, 1.0, 2.5, 7.0], f)]),
         ("argmax_cumsum", lambda v: (jnp.argmax(v), jnp.cumsum(v)[::-1], lax.cumsum(v, reverse=True)),
          [np.array([1, 3, 3, 2, 3], I)]),
     ]
